@@ -477,6 +477,39 @@ func intrinsicTable0() map[string]func(ex *Exec, f *Frame, call *ssa.Call, args 
 			}
 			return ex.prfPlusSpec(args[0].(IfaceV), args[1].(SliceV), args[2].(*Term)), reach
 		},
+		"verifFrameBegin": func(ex *Exec, f *Frame, call *ssa.Call, args []Value, reach *Term) (Value, *Term) {
+			return Int(int64(ex.frameBegin())), reach
+		},
+		"verifFrameAllow": func(ex *Exec, f *Frame, call *ssa.Call, args []Value, reach *Term) (Value, *Term) {
+			i, ok := args[0].(*Term).ConstInt()
+			r := frameRefOf(args[1])
+			if !ok || int(i) >= len(ex.frameMarks) || r == nil {
+				ex.unsupported("verifFrameAllow: mark or object not understood")
+				return nil, reach
+			}
+			ex.frameMarks[i].allowed = append(ex.frameMarks[i].allowed, r)
+			return nil, reach
+		},
+		"verifFrameAllowKind": func(ex *Exec, f *Frame, call *ssa.Call, args []Value, reach *Term) (Value, *Term) {
+			i, ok := args[0].(*Term).ConstInt()
+			s, ok2 := args[1].(StrV)
+			if !ok || !ok2 || s.Lit == nil || int(i) >= len(ex.frameMarks) {
+				ex.unsupported("verifFrameAllowKind: mark or kind not understood")
+				return nil, reach
+			}
+			ex.frameMarks[i].kinds = append(ex.frameMarks[i].kinds, *s.Lit)
+			return nil, reach
+		},
+		"verifFrameEnd": func(ex *Exec, f *Frame, call *ssa.Call, args []Value, reach *Term) (Value, *Term) {
+			i, ok := args[0].(*Term).ConstInt()
+			s, ok2 := args[1].(StrV)
+			if !ok || !ok2 || s.Lit == nil || int(i) >= len(ex.frameMarks) {
+				ex.unsupported("verifFrameEnd: mark or label not understood")
+				return nil, reach
+			}
+			ex.frameEnd(int(i), *s.Lit, reach)
+			return nil, reach
+		},
 		"verifFresh": func(ex *Exec, f *Frame, call *ssa.Call, args []Value, reach *Term) (Value, *Term) {
 			// true iff the slice is empty or its array was allocated during this execution
 			s := args[0].(SliceV)
